@@ -133,7 +133,22 @@ impl Middleware for PassMw {
     }
 }
 
-const BLOCKING_ROUTES: [&str; 4] = ["/hold", "/hold_ctx", "/hold_typed", "/hold_tctx"];
+const BLOCKING_ROUTES: [&str; 5] = ["/hold", "/hold_ctx", "/hold_typed", "/hold_tctx", "/hold_erased"];
+
+/// A hand-written `HandlerErased` that asks for off-reader execution itself (no `_blocking` registrar).
+struct ErasedHold(Arc<Shared>);
+impl repe::server::HandlerErased for ErasedHold {
+    fn handle(&self, req: &Message) -> Result<Message, RepeError> {
+        let v: Value = serde_json::from_slice(&req.body).map_err(RepeError::from)?;
+        match hold(&self.0, v["k"].as_u64().unwrap_or(0)) {
+            Ok(v) => Ok(Message::builder().id(req.header.id).query_format_code(req.header.query_format).body_json(&v)?.build()),
+            Err((code, message)) => Err(RepeError::ServerError { code, message }),
+        }
+    }
+    fn execution(&self) -> repe::Execution {
+        repe::Execution::OffReader
+    }
+}
 
 fn make_router(sh: &Arc<Shared>, mw: bool) -> Router {
     let (a, b, c, d) = (sh.clone(), sh.clone(), sh.clone(), sh.clone());
@@ -142,6 +157,7 @@ fn make_router(sh: &Arc<Shared>, mw: bool) -> Router {
         .with_json_ctx_blocking("/hold_ctx", move |_ctx: &CallContext, v: Value| hold(&b, v["k"].as_u64().unwrap_or(0)))
         .with_typed_blocking::<KIn, Value, _>("/hold_typed", move |i: KIn| -> Result<Value, (ErrorCode, String)> { hold(&c, i.k) })
         .with_typed_ctx_blocking::<KIn, Value, _>("/hold_tctx", move |_ctx: &CallContext, i: KIn| -> Result<Value, (ErrorCode, String)> { hold(&d, i.k) })
+        .with_erased_handler("/hold_erased", Arc::new(ErasedHold(sh.clone())))
         .with_json("/ping", |_v| Ok(json!("pong")))
         .with_json("/big", |v: Value| Ok(json!("x".repeat(v["n"].as_u64().unwrap_or(0) as usize))))
         .with_json("/fail", |v: Value| Err((code_of(v["c"].as_u64().unwrap_or(4) as u32), "asked to fail".into())));
@@ -157,10 +173,15 @@ struct Srv {
     sh: Arc<Shared>,
 }
 
-fn build_server(cap: Option<usize>, mw: bool, ocap: Option<usize>) -> (WebSocketServer, Arc<Shared>) {
+fn build_server(cap: Option<usize>, mw: bool, ocap: Option<usize>, dflt: bool) -> (WebSocketServer, Arc<Shared>) {
     let sh = Arc::new(Shared { gauge: AtomicI64::new(0), max_gauge: AtomicI64::new(0), gates: Mutex::new(HashMap::new()), events: Mutex::new(None), mw_calls: AtomicU64::new(0) });
     let sh2 = sh.clone();
-    let mut server = WebSocketServer::new(make_router(&sh, mw)).with_offreader_limit(cap.unwrap_or(0)).on_error(move |e| match e {
+    let mut server = WebSocketServer::new(make_router(&sh, mw));
+    if !dflt {
+        // `dflt`: leave the cap as `WebSocketServer::new` set it
+        server = server.with_offreader_limit(cap.unwrap_or(0));
+    }
+    let mut server = server.on_error(move |e| match e {
         ConnectionError::Saturation { .. } => sh2.emit(SrvEvent::Saturation),
         ConnectionError::HandlerPanic { .. } => sh2.emit(SrvEvent::Panic),
         _ => {}
@@ -174,9 +195,9 @@ fn build_server(cap: Option<usize>, mw: bool, ocap: Option<usize>) -> (WebSocket
 /// `ocap = None`: default outbound queue, served on the harness's multi-thread runtime.
 /// `ocap = Some(n)`: outbound queue of `n`, served on a current-thread runtime of its own, so the
 /// connection's reader and writer tasks interleave only at their await points (pressure scenario).
-async fn start_server(cap: Option<usize>, mw: bool, ocap: Option<usize>) -> Srv {
+async fn start_server(cap: Option<usize>, mw: bool, ocap: Option<usize>, dflt: bool) -> Srv {
     if ocap.is_none() {
-        let (server, sh) = build_server(cap, mw, None);
+        let (server, sh) = build_server(cap, mw, None, dflt);
         let l = TcpListener::bind("127.0.0.1:0").await.unwrap();
         let addr = l.local_addr().unwrap();
         tokio::spawn(async move {
@@ -188,7 +209,7 @@ async fn start_server(cap: Option<usize>, mw: bool, ocap: Option<usize>) -> Srv 
     std::thread::spawn(move || {
         let rt = tokio::runtime::Builder::new_current_thread().enable_all().max_blocking_threads(64).build().unwrap();
         rt.block_on(async move {
-            let (server, sh) = build_server(cap, mw, ocap);
+            let (server, sh) = build_server(cap, mw, ocap, dflt);
             let l = TcpListener::bind("127.0.0.1:0").await.unwrap();
             let _ = tx.send((l.local_addr().unwrap(), sh));
             let _ = server.serve_listener(l, "/repe").await;
@@ -203,7 +224,9 @@ async fn start_server(cap: Option<usize>, mw: bool, ocap: Option<usize>) -> Srv 
 // ------------------------------------------------------------------------------------------------
 #[derive(Clone, Debug)]
 enum Op {
-    Cap { cap: Option<usize>, mw: bool, ocap: Option<usize> },
+    Cap { cap: Option<usize>, mw: bool, ocap: Option<usize>, dflt: bool },
+    /// the client drops the connection (handlers stay parked) and opens a new one to the same server
+    Reconnect,
     /// the arrivals between `begin` and `end` are written to the socket in one piece and only then read
     Burst { begin: bool },
     Arrive { id: u64, blocking: bool, notify: bool, ec: u32 },
@@ -212,8 +235,10 @@ enum Op {
 
 fn op_line(idx: &str, op: &Op) -> String {
     match op {
-        Op::Cap { cap, mw, ocap: None } => format!("cap {} {} {}", idx, cap.map(|c| c.to_string()).unwrap_or("-".into()), *mw as u8),
-        Op::Cap { cap, mw, ocap: Some(o) } => format!("cap {} {} {} {}", idx, cap.map(|c| c.to_string()).unwrap_or("-".into()), *mw as u8, o),
+        Op::Cap { mw, dflt: true, .. } => format!("cap {} d {}", idx, *mw as u8),
+        Op::Cap { cap, mw, ocap: None, .. } => format!("cap {} {} {}", idx, cap.map(|c| c.to_string()).unwrap_or("-".into()), *mw as u8),
+        Op::Cap { cap, mw, ocap: Some(o), .. } => format!("cap {} {} {} {}", idx, cap.map(|c| c.to_string()).unwrap_or("-".into()), *mw as u8, o),
+        Op::Reconnect => format!("reconnect {}", idx),
         Op::Burst { begin } => format!("burst {} {}", idx, if *begin { "begin" } else { "end" }),
         Op::Arrive { id, blocking, notify, ec } => format!("arrive {} {} {} {} {}", idx, id, if *blocking { "blocking" } else { "inline" }, *notify as u8, ec),
         Op::Exit { id, cmd } => format!("exit {} {} {}", idx, id, match cmd { Cmd::Ret => "ret".to_string(), Cmd::Err(c) => format!("err {}", c), Cmd::Panic(0) => "panic".to_string(), Cmd::Panic(k) => format!("panic {}", k) }),
@@ -223,8 +248,10 @@ fn op_line(idx: &str, op: &Op) -> String {
 fn parse_op(line: &str) -> Option<(String, Op)> {
     let w = words(line);
     match w.as_slice() {
-        ["cap", idx, c, mw] => Some((idx.to_string(), Op::Cap { cap: if *c == "-" { None } else { Some(c.parse().ok()?) }, mw: *mw == "1", ocap: None })),
-        ["cap", idx, c, mw, o] => Some((idx.to_string(), Op::Cap { cap: if *c == "-" { None } else { Some(c.parse().ok()?) }, mw: *mw == "1", ocap: Some(o.parse().ok()?) })),
+        ["cap", idx, "d", mw] => Some((idx.to_string(), Op::Cap { cap: Some(repe::websocket_server::DEFAULT_OFFREADER_LIMIT), mw: *mw == "1", ocap: None, dflt: true })),
+        ["cap", idx, c, mw] => Some((idx.to_string(), Op::Cap { cap: if *c == "-" { None } else { Some(c.parse().ok()?) }, mw: *mw == "1", ocap: None, dflt: false })),
+        ["cap", idx, c, mw, o] => Some((idx.to_string(), Op::Cap { cap: if *c == "-" { None } else { Some(c.parse().ok()?) }, mw: *mw == "1", ocap: Some(o.parse().ok()?), dflt: false })),
+        ["reconnect", idx] => Some((idx.to_string(), Op::Reconnect)),
         ["burst", idx, "begin"] => Some((idx.to_string(), Op::Burst { begin: true })),
         ["burst", idx, "end"] => Some((idx.to_string(), Op::Burst { begin: false })),
         ["arrive", idx, id, route, n, ec] => Some((idx.to_string(), Op::Arrive { id: id.parse().ok()?, blocking: *route == "blocking", notify: *n == "1", ec: ec.parse().ok()? })),
@@ -248,6 +275,8 @@ struct Conn {
     stray: Vec<RawFrame>,
     /// ids of requests whose handler is parked (as the harness saw it) -> notify flag
     parked: BTreeMap<u64, bool>,
+    /// handlers parked on connections this script has dropped (they keep running server-side)
+    orphans: BTreeSet<u64>,
     answered: BTreeMap<u64, u32>,
     notifies: BTreeSet<u64>,
 }
@@ -311,7 +340,7 @@ fn request_frame_in(id: u64, blocking: bool, notify: bool, ec: u32, burst: bool)
 
 fn request_frame(id: u64, blocking: bool, notify: bool, ec: u32) -> RawFrame {
     if blocking {
-        let route = BLOCKING_ROUTES[(id % 4) as usize];
+        let route = BLOCKING_ROUTES[(id % 5) as usize];
         RawFrame::request(id, notify, 1, route.as_bytes(), 2, serde_json::to_vec(&json!({ "k": id })).unwrap().as_slice())
     } else if ec == 0 {
         RawFrame::request(id, notify, 1, b"/ping", 2, b"null")
@@ -380,7 +409,7 @@ async fn do_arrive(c: &mut Conn, idx: &str, id: u64, blocking: bool, notify: boo
         if saturated_reply {
             // A refusal is only legitimate while `cap` handlers are running.  Between a handler's exit
             // (observed) and the release of its permit there is a short window; give the slot SLOT_GRACE.
-            let room = c.cap.map(|cap| (gauge_before.max(c.gauge()) as usize) < cap).unwrap_or(true);
+            let room = c.cap.map(|cap| (gauge_before.max(c.gauge()) as usize) < cap + c.orphans.len()).unwrap_or(true);
             if room {
                 if started.elapsed() < SLOT_GRACE {
                     *retries += 1;
@@ -507,7 +536,8 @@ async fn do_exit(c: &mut Conn, idx: &str, id: u64, cmd: Cmd) -> OpResult {
     let Some(gate) = gate else {
         return OpResult { obs: format!("{idx} unknown ; running {}", c.gauge()), fails, broken: false };
     };
-    let notify = c.parked.remove(&id).unwrap_or(false);
+    // a handler of a dropped connection has nobody to answer: only its exit is observable
+    let notify = if c.orphans.remove(&id) { true } else { c.parked.remove(&id).unwrap_or(false) };
     c.drain_events();
     let _ = gate.send(cmd);
     let deadline = Instant::now() + WATCHDOG;
@@ -567,12 +597,14 @@ fn pick_cmd(r: &mut Rng) -> Cmd {
 struct Gen {
     ops: Vec<Op>,
     running: Vec<u64>,
+    /// handlers of connections the client has dropped
+    orphans: Vec<u64>,
     cap: Option<usize>,
     next_id: u64,
 }
 impl Gen {
     fn new(cap: Option<usize>, mw: bool, base: u64) -> Gen {
-        Gen { ops: vec![Op::Cap { cap, mw, ocap: None }], running: Vec::new(), cap, next_id: base }
+        Gen { ops: vec![Op::Cap { cap, mw, ocap: None, dflt: false }], running: Vec::new(), orphans: Vec::new(), cap, next_id: base }
     }
     fn arrive(&mut self, blocking: bool, notify: bool, ec: u32) -> u64 {
         self.next_id += 1;
@@ -583,12 +615,18 @@ impl Gen {
         }
         id
     }
+    fn reconnect(&mut self) {
+        self.orphans.append(&mut self.running);
+        self.ops.push(Op::Reconnect);
+    }
     fn exit(&mut self, id: u64, cmd: Cmd) {
         self.running.retain(|x| *x != id);
+        self.orphans.retain(|x| *x != id);
         self.ops.push(Op::Exit { id, cmd });
     }
     fn exit_all(&mut self, r: &mut Rng) {
         let mut ids = self.running.clone();
+        ids.extend(self.orphans.iter().cloned());
         r.shuffle(&mut ids);
         for id in ids {
             let cmd = pick_cmd(r);
@@ -679,7 +717,7 @@ fn order_script(cap: usize, mw: bool, base: u64, order: &[usize], kinds: &[Cmd],
 /// between, an inline request last.  Then the usual releases and the epilogue.
 fn pressure_script(r: &mut Rng, cap: usize, mw: bool, base: u64, pre: usize, extra: usize) -> Vec<Op> {
     let mut g = Gen::new(Some(cap), mw, base);
-    g.ops[0] = Op::Cap { cap: Some(cap), mw, ocap: Some(1) };
+    g.ops[0] = Op::Cap { cap: Some(cap), mw, ocap: Some(1), dflt: false };
     for _ in 0..pre.min(cap) {
         g.arrive(true, false, 0);
     }
@@ -744,6 +782,44 @@ fn gen_scripts(r: &mut Rng, thorough: bool) -> Vec<Vec<Op>> {
             }
         }
     }
+    // the cap `WebSocketServer::new` sets when the embedder says nothing
+    {
+        let dcap = repe::websocket_server::DEFAULT_OFFREADER_LIMIT;
+        let with_mw = r.chance(1, 2);
+        let mut ops = random_script(r, Some(dcap), with_mw, nb(), thorough);
+        ops[0] = Op::Cap { cap: Some(dcap), mw: matches!(ops[0], Op::Cap { mw: true, .. }), ocap: None, dflt: true };
+        scripts.push(ops);
+    }
+    // a connection goes away while its handlers are parked; a new connection has its own slots
+    for round in 0..(if thorough { 6 } else { 2 }) {
+        for cap in [1usize, 2, 3, 5] {
+            let mut g = Gen::new(Some(cap), (round + cap) % 2 == 0, nb());
+            for _ in 0..cap {
+                g.arrive(true, r.chance(1, 6), 0);
+            }
+            g.arrive(true, false, 0);
+            g.reconnect();
+            for _ in 0..cap {
+                g.arrive(true, false, 0);
+            }
+            g.arrive(true, false, 0);
+            g.arrive(false, false, 0);
+            // some of the left-over handlers end now, the rest later
+            let orph = g.orphans.clone();
+            for id in orph.iter().take((cap + 1) / 2) {
+                let cmd = pick_cmd(r);
+                g.exit(*id, cmd);
+            }
+            g.arrive(true, false, 0); // still full: the freed slots belonged to the old connection
+            if round % 2 == 1 {
+                g.reconnect();
+                g.arrive(true, false, 0);
+            }
+            g.exit_all(r);
+            g.epilogue(r);
+            scripts.push(g.ops);
+        }
+    }
     // pressure: bursts written in one piece against a one-slot outbound queue
     for round in 0..(if thorough { 8 } else { 2 }) {
         for cap in 1..=3usize {
@@ -776,16 +852,16 @@ fn gen_scripts(r: &mut Rng, thorough: bool) -> Vec<Vec<Op>> {
 // ------------------------------------------------------------------------------------------------
 // running one script
 // ------------------------------------------------------------------------------------------------
-type SrvKey = (Option<usize>, bool, Option<usize>);
+type SrvKey = (Option<usize>, bool, Option<usize>, bool);
 
 async fn run_script(out: &mut Out, servers: &mut HashMap<SrvKey, Srv>, sno: usize, ops: &[(String, Op)], retries: &mut u64) -> bool {
-    let Some((cap_idx, Op::Cap { cap, mw, ocap })) = ops.first().cloned() else {
+    let Some((cap_idx, Op::Cap { cap, mw, ocap, dflt })) = ops.first().cloned() else {
         out.oracle_fail("offreader.setup", "script does not start with a cap line", &[]);
         return false;
     };
-    let key: SrvKey = (cap, mw, ocap);
+    let key: SrvKey = (cap, mw, ocap, dflt);
     if !servers.contains_key(&key) {
-        servers.insert(key, start_server(cap, mw, ocap).await);
+        servers.insert(key, start_server(cap, mw, ocap, dflt).await);
     }
     let srv = servers.get(&key).unwrap();
     let (tx, rx) = unbounded_channel();
@@ -799,7 +875,7 @@ async fn run_script(out: &mut Out, servers: &mut HashMap<SrvKey, Srv>, sno: usiz
             return false;
         }
     };
-    let mut c = Conn { ws, events: rx, sh: srv.sh.clone(), cap, stray: Vec::new(), parked: BTreeMap::new(), answered: BTreeMap::new(), notifies: BTreeSet::new() };
+    let mut c = Conn { ws, events: rx, sh: srv.sh.clone(), cap, stray: Vec::new(), parked: BTreeMap::new(), orphans: BTreeSet::new(), answered: BTreeMap::new(), notifies: BTreeSet::new() };
     let lines: Vec<String> = ops.iter().map(|(i, o)| op_line(i, o)).collect();
     out.config(&lines[0]);
     let _ = cap_idx;
@@ -811,6 +887,7 @@ async fn run_script(out: &mut Out, servers: &mut HashMap<SrvKey, Srv>, sno: usiz
     let mw_before = srv.sh.mw_calls.load(Ordering::SeqCst);
     let mut dispatched = 0u64;
     let mut ok = true;
+    let mut orphan_base = 0usize;
     let mut k = 1;
     while k < ops.len() && ok {
         out.begin(&lines[k]);
@@ -855,6 +932,28 @@ async fn run_script(out: &mut Out, servers: &mut HashMap<SrvKey, Srv>, sno: usiz
                 k += 1;
                 continue;
             }
+            Op::Reconnect => {
+                out.config(&lines[k]);
+                out.count("offreader.reconnects_with_parked_handlers");
+                k += 1;
+                // drop the connection without a close handshake; its handlers stay parked
+                let parked: Vec<u64> = c.parked.keys().cloned().collect();
+                c.orphans.extend(parked);
+                c.parked.clear();
+                match tokio::time::timeout(WATCHDOG, tokio_tungstenite::connect_async_with_config(&url, None, true)).await {
+                    Ok(Ok((ws, _))) => {
+                        let old = std::mem::replace(&mut c.ws, ws);
+                        drop(old);
+                    }
+                    _ => {
+                        out.oracle_fail("offreader.connection", "could not open a second connection to the server", &lines[..k].to_vec());
+                        ok = false;
+                    }
+                }
+                orphan_base = c.orphans.len();
+                c.sh.max_gauge.store(c.gauge(), Ordering::SeqCst);
+                continue;
+            }
             Op::Arrive { id, blocking, notify, ec } => {
                 results.push((k, do_arrive(&mut c, &ops[k].0, *id, *blocking, *notify, *ec, retries).await));
                 k += 1;
@@ -895,8 +994,8 @@ async fn run_script(out: &mut Out, servers: &mut HashMap<SrvKey, Srv>, sno: usiz
             let mut fails = r.fails;
             if let Some(cc) = cap {
                 let mx = c.sh.max_gauge.load(Ordering::SeqCst);
-                if mx > cc as i64 {
-                    fails.push(("offreader.cap_exceeded".to_string(), format!("{idx}: {} handlers were running at once on a connection with cap {}", mx, cc)));
+                if mx > (cc + orphan_base) as i64 {
+                    fails.push(("offreader.cap_exceeded".to_string(), format!("{idx}: {} handlers were running at once on a connection with cap {} ({} of them left over from dropped connections)", mx, cc, orphan_base)));
                 }
             }
             if let Op::Arrive { id, blocking: true, notify: false, .. } = op {
@@ -957,7 +1056,7 @@ fn main() {
     let args = Args::parse();
     quiet_panics();
     let mut out = Out::new(&args.out);
-    out.rule = "event scripts on one raw WebSocket connection per script against a real WebSocketServer: caps 1..16 and unlimited, routers with and without middleware, the four `_blocking` registrars (by request id), arrivals up to 4x cap of blocking requests (1 in 5 a notify) interleaved with inline requests (some failing) and exits of random running handlers (return / error code / panic with 7 payload kinds: literal &str, formatted String, None.unwrap(), Err.expect(), index out of bounds, panic_any(u32), assert_eq!), every release order for caps 1..3 (thorough: with every assignment of exit kinds), pressure scripts (outbound queue of one slot, server on a current-thread runtime, caps 1..3): bursts of cap parked + 3..12 further blocking requests + inline requests with 48 KiB answers written to the socket in one piece and read only afterwards; each script ends by releasing everything, admitting cap-many further requests, one refusal, and releasing again. Distinct by op line; non-trivial = an exit, a saturation reply/drop, or any event while handlers are parked".into();
+    out.rule = "event scripts on one raw WebSocket connection per script against a real WebSocketServer: caps 1..16 and unlimited, routers with and without middleware, the four `_blocking` registrars and a hand-written erased handler with execution() = OffReader (by request id), arrivals up to 4x cap of blocking requests (1 in 5 a notify) interleaved with inline requests (some failing) and exits of random running handlers (return / error code / panic with 7 payload kinds: literal &str, formatted String, None.unwrap(), Err.expect(), index out of bounds, panic_any(u32), assert_eq!), every release order for caps 1..3 (thorough: with every assignment of exit kinds), pressure scripts (outbound queue of one slot, server on a current-thread runtime, caps 1..3): bursts of cap parked + 3..12 further blocking requests + inline requests with 48 KiB answers written to the socket in one piece and read only afterwards; a default-configured server (no with_offreader_limit); reconnect scripts (the client drops the connection while handlers are parked, opens a new one: its own cap-many slots, left-over handlers end later); each script ends by releasing everything, admitting cap-many further requests, one refusal, and releasing again. Distinct by op line; non-trivial = an exit, a saturation reply/drop, or any event while handlers are parked".into();
     let rt = tokio::runtime::Builder::new_multi_thread().worker_threads(4).max_blocking_threads(256).enable_all().build().unwrap();
     let mut rng = Rng::new(args.seed);
     let scripts: Vec<Vec<(String, Op)>> = match args.replay_ops() {
